@@ -199,3 +199,59 @@ Proof.
   vm_compute in Hn. injection Hn as <-. vm_compute in Hc. injection Hc as <-.
   vm_compute in Hp. discriminate.
 Qed.
+
+(* ------------------------------------------------------------------ *)
+(* A failed AddFrame must leave the animation as it was.  With the earlier order in
+   increasePreviousDuration (cap the previous duration, then encode the overflow
+   filler) a call whose filler encode fails returns an error but has already changed
+   the previous picture's display time.  1x1 canvas: red 10 ms, green 0xFFFFFF-5 ms,
+   green again 10 ms with the filler encode failing. *)
+
+Definition w4_frames : list (img * Z) :=
+  [ (mkimg 1 1 [R], 10); (mkimg 1 1 [G], 16777210); (mkimg 1 1 [G], 10) ].
+
+Definition w4_fails (n : nat) : efail :=
+  match n with 2%nat => mkefail true false false false | _ => no_fail end.
+
+Definition w4_show (keep_dur : bool) : option (list (img * Z) * show) :=
+  match new_encoder 1 1 lossless_default with
+  | Some st0 =>
+      let '(stf, acc) := run_e repaired keep_dur 10000 (fun _ => o_none) w4_fails st0 w4_frames in
+      match close false false stf with
+      | Some out => Some (acc, playback id_img id_img repaired out)
+      | None => None
+      end
+  | None => None
+  end.
+
+Example w4_kept : w4_show true = Some ([(mkimg 1 1 [R], 10); (mkimg 1 1 [G], 16777210)],
+                                       [([R], 10); ([G], 16777210)]).
+Proof. vm_compute. reflexivity. Qed.
+
+Example w4_pinned_changes_duration :
+  w4_show false = Some ([(mkimg 1 1 [R], 10); (mkimg 1 1 [G], 16777210)],
+                        [([R], 10); ([G], 16777215)]).
+Proof. vm_compute. reflexivity. Qed.
+
+Theorem anim_error_roundtrip_refuted_cap_first : ~ anim_error_roundtrip_statement false.
+Proof.
+  intros Hs.
+  destruct (new_encoder 1 1 lossless_default) as [st0|] eqn:Hn; [|vm_compute in Hn; discriminate].
+  destruct (run_e repaired false 10000 (fun _ => o_none) w4_fails st0 w4_frames) as [stf acc] eqn:Hr.
+  destruct (close false false stf) as [out|] eqn:Hc;
+    [|vm_compute in Hn; injection Hn as <-; vm_compute in Hr; injection Hr as <- <-;
+      vm_compute in Hc; discriminate].
+  specialize (Hs id_img id_img 1 1 lossless_default w4_frames (fun _ => o_none) w4_fails 10000
+                 false false st0 stf acc out id_codec_lossless).
+  assert (Hd : wf_canvas_dims 1 1) by (unfold wf_canvas_dims, max_canvas_dimension; lia).
+  assert (Ho : lossless_opts lossless_default)
+    by (unfold lossless_opts, max_loop_count; cbn; repeat split; lia).
+  assert (Hwf : Forall wf_input w4_frames) by (unfold w4_frames, R, G; wf_inputs).
+  specialize (Hs Hd Ho Hwf Hn Hr Hc).
+  destruct Hs as [_ _ Ht].
+  vm_compute in Hn. injection Hn as <-. vm_compute in Hr. injection Hr as <- <-.
+  vm_compute in Hc. injection Hc as <-.
+  assert (H2 : le 2 (length (collapse (inputs_of 1 1 [(mkimg 1 1 [R], 10); (mkimg 1 1 [G], 16777210)]))))
+    by (vm_compute; repeat constructor).
+  destruct (Ht H2) as [Heq _]. vm_compute in Heq. discriminate.
+Qed.
